@@ -69,11 +69,12 @@ func (sc *SC) pushedValueIsTokData(arg ssa.Value) bool {
 func runC09(c *Ctx) {
 	R := c.R
 	R.Rule("C09.R1", "stack/flag invariant is inductive: on every back edge of the token loop, (pending-close flag) ⇔ (pending-close stack non-empty) is re-established: unchanged stack ⇒ unchanged flag; append ⇒ flag true; shrink-by-one ⇒ flag false exactly when the shrunk stack is empty; no other stack update exists")
-	R.Rule("C09.R2c", "completeness: every StartTag path on which an admitted element is left without attributes and is not allowed bare pushes its name; every EndTag path (past the script/style gate) on which the pending flag is set and token.Data equals the top of the stack pops it")
+	R.Rule("C09.R2c", "completeness: every StartTag path on which an admitted element is left without attributes and is not allowed bare pushes its name; every SelfClosingTag path on which a non-void admitted element is left without attributes and is not allowed bare pushes its name too (browsers and the tokenizer ignore the slash, the end tag follows); every EndTag path (past the script/style gate) on which the pending flag is set and token.Data equals the top of the stack pops it")
 	R.Rule("C09.R2", "push/pop conditions: a push happens only in the StartTag arm, pushes token.Data, on an edge whose path condition implies 'no attribute survived ∧ ¬allowNoAttrs(token.Data)'; a pop happens only in the EndTag arm under flag ∧ token.Data == top of stack; no tag write is reachable after a push or a pop in the same iteration")
 	R.Rule("C09.R3", "every drop has a tabled reason: a StartTag/SelfClosingTag iteration that writes no tag is disallowed, gated, dropped for lack of attributes, or inside skipped content; an EndTag iteration that writes no tag is disallowed, gated, popped, or inside skipped content — the same admission predicate (element table ∨ element pattern) in both arms")
 	R.Rule("C09.R4", "pushes are matchable: the push edge is reached only for elements that can have an end tag (a void-element test on token.Data guards it)")
-	R.Rule("C09.R5", "the SelfClosingTag arm never pushes and never pops")
+	R.Rule("C09.R6", "frames, not names: an end tag is matched with the dropped start tag it belongs to — the arm handling start tags consults the top of the pending-close stack, so that same-name elements that are not pushed between a push and its pop can be told apart from the pushed one")
+	R.Rule("C09.R5", "the SelfClosingTag arm never pops; it pushes only what the StartTag arm would push, and only for non-void elements (R2)")
 	R.Assume(TrustGo, TrustTokenizer, "balance over every token sequence depends on the run-time contents of the stack; the rules fix its transitions and the agreement of the two arms")
 	sc := newSC(c, "C09.R1")
 	if sc == nil {
@@ -256,7 +257,12 @@ func runC09(c *Ctx) {
 			// R2
 			goal := sc.lacksAttrs(as, arm, l0Atoms, anaAtoms)
 			ok2, cex2 := as.q.Holds(es, goal)
-			R.Check(ok2 && arm == "StartTag" && sc.pushedValueIsTokData(arg), "C09.R2", key, cons, pos, "push of token.Data in the StartTag arm under "+A.Str(goal),
+			// the SelfClosingTag arm may push as well, but only for a non-void element (whose "/" browsers ignore)
+			armOK := arm == "StartTag"
+			if arm == "SelfClosingTag" && len(voidAtoms) > 0 {
+				armOK, _ = as.q.Holds(es, pa.Not(orAtoms(voidAtoms)))
+			}
+			R.Check(ok2 && armOK && sc.pushedValueIsTokData(arg), "C09.R2", key, cons, pos, "push of token.Data in the StartTag arm (or, for a non-void element, the SelfClosingTag arm) under "+A.Str(goal),
 				fmt.Sprintf("push outside its condition (arm=%s, pushes token.Data=%v): [%s]", arm, sc.pushedValueIsTokData(arg), cex2))
 			// R4 (one obligation per push instruction, whatever the number of back edges it reaches)
 			key4 := "push:" + arm
@@ -303,6 +309,41 @@ func runC09(c *Ctx) {
 	R.Role("C09.R1", "pop back edges", nPop, 1)
 	R.Role("C09.R2", "allowNoAttrs(token.Data) tests", len(anaAtoms), 1)
 	R.Role("C09.R2", "top-of-stack == token.Data tests", len(topEq), 1)
+
+	// R6: frames, not names.  The pop condition recognises the end tag of a dropped element by its name alone.  A start
+	// tag of the same name that arrives while that name is on top of the stack and is not itself pushed (it is kept, or
+	// not written because content is being skipped) has its end tag first — which then pops the outer frame.  The arm
+	// that handles start tags must therefore look at the top of the stack (to count such nested elements).
+	{
+		isTop := map[int]bool{}
+		for _, t := range topEq {
+			isTop[t] = true
+		}
+		found := false
+		var at0 *ssa.BasicBlock
+		for _, b := range sc.S.Fn.Blocks {
+			if sc.S.ArmOf(b) != "StartTag" {
+				continue
+			}
+			if at0 == nil {
+				at0 = b
+			}
+			if ifi, ok := b.Instrs[len(b.Instrs)-1].(*ssa.If); ok {
+				m := map[int]bool{}
+				A.Cond(ifi.Cond).Atoms(m)
+				for k := range m {
+					if isTop[k] {
+						found = true
+					}
+				}
+			}
+		}
+		pos6 := ""
+		if at0 != nil {
+			pos6 = c.P.Pos(lastPos(at0))
+		}
+		R.Check(found, "C09.R6", "nesting:StartTag", "(*Policy).sanitize arm StartTag: same-name elements nested in a dropped element", pos6, "the arm compares the start tag's name with the top of the pending-close stack", "the pending-close stack is matched by name only and the StartTag arm never looks at its top: a start tag that is not pushed (kept, or inside skipped content) while an element of the same name is on top of the stack has its end tag dropped in place of the outer element's, whose own end tag is then emitted alone")
+	}
 
 	// R2: no tag write after push/pop
 	for _, arm := range tagArms {
@@ -370,13 +411,39 @@ func runC09(c *Ctx) {
 				ok, cex := as.q.Holds(es, pa.Or(wrote, pa.Not(allowedStart), pa.Not(as.gatepass), lacks, skipOut, skipCur))
 				R.Check(ok, "C09.R3", key, cons, pos, "tag written or dropped for a tabled reason", "a start tag can be dropped for no tabled reason: ["+cex+"]")
 			case "SelfClosingTag":
-				R.Check(s == ssa.Value(lv.Stack), "C09.R5", key, cons, pos, "stack untouched", "the SelfClosingTag arm changes the pending-close stack")
+				// the value reaching the header may merge a push with the unchanged stack (`if !void { push }`)
+				var keepOrPush func(v ssa.Value, d int) bool
+				keepOrPush = func(v ssa.Value, d int) bool {
+					if v == ssa.Value(lv.Stack) {
+						return true
+					}
+					if _, ok := model.IsAppendTo(v, lv.Stack); ok {
+						return true
+					}
+					if ph, ok := v.(*ssa.Phi); ok && d < 4 && ph.Block() != hdr {
+						for _, e := range ph.Edges {
+							if !keepOrPush(e, d+1) {
+								return false
+							}
+						}
+						return true
+					}
+					return false
+				}
+				R.Check(keepOrPush(s, 0), "C09.R5", key, cons, pos, "stack untouched or pushed", "the SelfClosingTag arm pops or rewrites the pending-close stack")
+				// a non-void element written with "/" is a start tag to browsers and to the tokenizer: its end tag follows
+				if len(voidAtoms) == 0 {
+					R.Fail("C09.R2c", key, cons, pos, "the SelfClosingTag arm does not distinguish void elements: a non-void element dropped for lack of attributes is not pushed, so its end tag is emitted alone")
+				} else {
+					ok, cex := as.q.Holds(es, pa.Or(pa.AtomF(evPush), pa.Not(pa.And(allowedStart, as.gatepass, lacks, pa.Not(orAtoms(voidAtoms))))))
+					R.Check(ok, "C09.R2c", key, cons, pos, "pushed, or no push needed on this edge", "an admitted non-void element written as a self-closing tag, left without attributes and not allowed bare, can leave the arm without being pushed: its end tag (which follows, browsers and the tokenizer ignore the slash) is then emitted alone: ["+cex+"]")
+				}
 				ok, cex := as.q.Holds(es, pa.Or(wrote, pa.Not(allowedStart), pa.Not(as.gatepass), lacks, skipOut, skipCur))
 				R.Check(ok, "C09.R3", key, cons, pos, "tag written or dropped for a tabled reason", "a self-closing tag can be dropped for no tabled reason: ["+cex+"]")
 			case "EndTag":
-				if !model.IsShrinkByOne(s, lv.Stack) && len(topEq) > 0 {
-					okP, cexP := as.q.Holds(es, pa.Not(pa.And(pend, orAtoms(topEq), as.gatepass)))
-					R.Check(okP, "C09.R2c", key+":pop", cons, pos, "no pop needed on this edge", "an end tag that equals the top of the pending-close stack (past the script/style gate) can leave the arm without popping it: the stale entry then swallows a later end tag of that name or hides the enclosing entries: ["+cexP+"]")
+				if len(topEq) > 0 {
+					okP, cexP := as.q.Holds(es, pa.Or(pa.AtomF(evPop), pa.Not(pa.And(pend, orAtoms(topEq), as.gatepass))))
+					R.Check(okP, "C09.R2c", key+":pop", cons, pos, "popped, or no pop needed on this edge", "an end tag that equals the top of the pending-close stack (past the script/style gate) can leave the arm without popping it: the stale entry then swallows a later end tag of that name or hides the enclosing entries: ["+cexP+"]")
 				}
 				ok, cex := as.q.Holds(es, pa.Or(wrote, as.disallowed, pa.Not(as.gatepass), pa.AtomF(evPop), skipOut, skipCur))
 				R.Check(ok, "C09.R3", key, cons, pos, "tag written or dropped for a tabled reason", "an end tag can be dropped for no tabled reason: ["+cex+"]")
